@@ -130,6 +130,10 @@ class ObjectTemplate(base.HyperValue, utils.Formattable):
         Please see 'ObjectTemplate' docstr for details.
     """
     super().__init__()
+    if isinstance(value, (list, dict)) and not isinstance(value, symbolic.Symbolic):
+      # Plain containers are templates too: decoding rebinds the placeholders,
+      # which requires the symbolic form.
+      value = symbolic.from_json(value)
     self._value = value
     self._root_path = utils.KeyPath()
     self._compute_derived = compute_derived
